@@ -4,6 +4,10 @@ pub(super) fn ntv2_subgrid(
     parser: &NTv2Parser,
     head_offset: usize,
 ) -> Result<(String, String, BaseGrid), Error> {
+    // A truncated file may promise more sub grids than it holds
+    if head_offset + HEADER_SIZE > parser.buffer().len() {
+        return Err(Error::Invalid("Grid Too Short".to_string()));
+    }
     let head = SubGridHeader::new(parser, head_offset)?;
     let name = head.name.clone();
     let parent = head.parent.clone();
